@@ -39,6 +39,7 @@ type GenCfg struct {
 	DupStores  bool
 	Rollbacks  bool
 	Prefix     string
+	Bulk       int // >0: bulk-load programs (ascending keys, Bulk adds per transaction) instead of random ones
 }
 
 var writeOps = []string{"Add", "Add", "AddIfNotExist", "Update", "Upsert", "Upsert", "Remove", "Remove"}
@@ -46,6 +47,9 @@ var readOps = []string{"Find", "Get", "Get", "Count", "Scan"}
 
 // GenProgram makes a random sequential program; a store is created by the first transaction that uses it.
 func GenProgram(r *rand.Rand, c GenCfg, id int) Program {
+	if c.Bulk > 0 {
+		return genBulk(r, c, id)
+	}
 	var p Program
 	ns := 1 + r.Intn(c.MaxStores)
 	for i := 0; i < ns; i++ {
@@ -124,5 +128,36 @@ func GenProgram(r *rand.Rand, c GenCfg, id int) Program {
 		}
 		p.Txns = append(p.Txns, t)
 	}
+	return p
+}
+
+// genBulk: one store, MaxTxns transactions each adding Bulk ascending keys (then a few updates/removes), final scan.
+func genBulk(r *rand.Rand, c GenCfg, id int) Program {
+	var p Program
+	o := sopenv.StoreOpts{Name: fmt.Sprintf("%s%d_s0", c.Prefix, id), Slot: c.Slots[r.Intn(len(c.Slots))], Unique: true,
+		Placement: c.Placements[r.Intn(len(c.Placements))], Balancing: r.Intn(3) == 0}
+	p.Stores = []sopenv.StoreOpts{o}
+	nt := c.MaxTxns
+	for ti := 0; ti < nt; ti++ {
+		t := TxnSpec{Mode: "w", End: "commit"}
+		if ti == 0 {
+			t.New = []int{0}
+		} else {
+			t.Open = []int{0}
+		}
+		for i := 0; i < c.Bulk; i++ {
+			t.Ops = append(t.Ops, OpSpec{Op: "Add", Store: 0, K: ti*c.Bulk + i + 1, V: fmt.Sprintf("b%d.%d.%d", id, ti, i)})
+		}
+		for i := 0; i < c.Bulk/20; i++ {
+			k := 1 + r.Intn((ti+1)*c.Bulk)
+			if r.Intn(2) == 0 {
+				t.Ops = append(t.Ops, OpSpec{Op: "Update", Store: 0, K: k, V: fmt.Sprintf("u%d.%d.%d", id, ti, i)})
+			} else {
+				t.Ops = append(t.Ops, OpSpec{Op: "Remove", Store: 0, K: k})
+			}
+		}
+		p.Txns = append(p.Txns, t)
+	}
+	p.Txns = append(p.Txns, TxnSpec{Mode: "r", Open: []int{0}, Ops: []OpSpec{{Op: "Count", Store: 0}, {Op: "Scan", Store: 0}}, End: "commit"})
 	return p
 }
